@@ -31,3 +31,15 @@ package queue
 //@     invariant [separate] onHold.items.blk != addr(onHold).blk && pqueue.items.blk != addr(pqueue).blk && onHold.items.blk != addr(pqueue).blk &&
 //@       pqueue.items.blk != addr(onHold).blk && (onHold.items.blk != pqueue.items.blk || onHold.items.blk == 0) && addr(onHold).blk != addr(pqueue).blk
 //@     invariant [wired] queue != nil && ctx != nil && onHoldQueue != nil
+//@
+// An item reports its release to the queue at most once: the first Requeue/Release marks it.
+//@ func (*Item[K, V]).Requeue
+//@   props C09
+//@   requires [wired] item != nil && item.queue != nil
+//@   modifies item.released
+//@   ensures [released-marked] item.released
+//@ func (*Item[K, V]).Release
+//@   props C09
+//@   requires [wired] item != nil && item.queue != nil
+//@   modifies item.released
+//@   ensures [released-marked] item.released
